@@ -144,13 +144,17 @@ def int_binop(it, op, a, b, node):
             if not it.ctx.valid(zb_ > 0):
                 raise Unsupported("division by possibly negative value")
         if isinstance(b, int) and t is ast.Mod:
-            sz = z3.simplify(strip_mod(za, b))
+            s0 = strip_mod(za, b)
+            sz = z3.simplify(s0)
             if not z3.is_int_value(sz) and b > 2 ** 64:
-                # field-sized modulus: drop the reduction when the path condition bounds the operand (canonical form)
-                if it.ctx.valid(z3.And(za >= 0, za < b)):
-                    return mk_int(za)
-                if it.ctx.valid(z3.And(za >= -b, za < 0)):
-                    return mk_int(za + b)
+                # field-sized modulus: replace the reduction by its value when the path condition bounds the
+                # (canonicalised) operand, so that e.g. p - y, (0 - y) % p and (p - y) % p all become the same term
+                if it.ctx.valid(z3.And(s0 >= 0, s0 < b)):
+                    return mk_int(s0)
+                if it.ctx.valid(z3.And(s0 >= -b, s0 < 0)):
+                    return mk_int(s0 + b)
+                if it.ctx.valid(z3.And(s0 > -b, s0 <= 0)):
+                    return mk_int(z3.If(s0 == 0, z3.IntVal(0), s0 + b))
             return mk_int(sz % zb_)
         if not isinstance(b, int):
             # non-constant divisor: uninterpreted quotient/remainder tied together by the division identity
@@ -193,7 +197,8 @@ def strip_mod(z, m):
     """(.. (t % m) ..) % m == (.. t ..) % m for sums, differences and products: canonical form of modular expressions."""
     z = z3.simplify(z)
     if z3.is_int_value(z):
-        return z3.IntVal(z.as_long() % m)       # constants are reduced (p - y and -y get the same form)
+        v = z.as_long() % m                     # constants are reduced to the residue of least absolute value,
+        return z3.IntVal(v - m if v > m // 2 else v)   # so that p - y, -y and (p-1)*y all take the form -y
     if z3.is_app_of(z, z3.Z3_OP_MOD) and z3.is_int_value(z.arg(1)) and z.arg(1).as_long() == m:
         return strip_mod(z.arg(0), m)
     if z3.is_app_of(z, z3.Z3_OP_ADD):
@@ -474,7 +479,7 @@ def index(it, base, idx, node, checked=True):
     if is_bytes(base):
         if not is_int(idx):
             it.raise_(TypeError, node)
-        vb = to_vbytes(base)
+        vb = refine_len(it, to_vbytes(base))
         n = bytes_len(vb)
         if isinstance(idx, int) and idx < 0:
             idx = mk_int(zi(n) + idx)
@@ -625,7 +630,33 @@ def slice_(it, base, lo, hi, st, node):
     return bytes_slice(it, vb, lo, hi)
 
 
+def refine_len(it, vb):
+    """Give chunks the concrete length the path condition forces (e.g. after `assert len(b) == 33`)."""
+    if vb.klen() is not None or not it.ctx.opts.get("refine_len", False):
+        return vb
+    out = []
+    changed = False
+    memo = it.ctx.ghost.setdefault("len_refined", {})
+    for c in vb.chunks:
+        if c.n is None:
+            k = (c.z.get_id(), len(it.ctx.pc))
+            ent = memo.get(k)
+            if ent is not None and ent[0].eq(c.z):
+                n = ent[1]
+            else:
+                vals = it.ctx.solver.enum_values(z3.Length(c.z), 1)
+                n = vals[0] if vals is not None and len(vals) == 1 else None
+                memo[k] = (c.z, n)
+            if n is not None:
+                out.append(Chunk(c.z, n, c.lit))
+                changed = True
+                continue
+        out.append(c)
+    return VBytes(out) if changed else vb
+
+
 def bytes_slice(it, vb, lo, hi):
+    vb = refine_len(it, vb)
     total = vb.klen()
     if len(vb.chunks) == 1 and vb.chunks[0].lit is not None and total <= 64:
         # slice of a small concrete table at a symbolic position: case split over the feasible positions
@@ -653,8 +684,10 @@ def bytes_slice(it, vb, lo, hi):
         if r is not None:
             return norm_bytes(VBytes(r))
     lo_c = 0 if lo is None else lo
-    # structural walk for bounds that match chunk boundaries (concrete or provably equal symbolic sums)
-    res = _structural_slice(it, vb, lo_c, hi)
+    # structural walk for bounds that match chunk boundaries (concrete or provably equal symbolic sums);
+    # negative concrete bounds that could not be resolved above are relative to an unknown total length: generic path
+    neg = (isinstance(lo, int) and lo < 0) or (isinstance(hi, int) and hi < 0)
+    res = None if neg else _structural_slice(it, vb, lo_c, hi)
     if res is not None:
         return norm_bytes(VBytes(res))
     n = bytes_len(vb)
